@@ -11,7 +11,6 @@ import (
 	"encoding/hex"
 	"fmt"
 	"math"
-	"reflect"
 	"sort"
 	"strconv"
 	"strings"
@@ -217,87 +216,6 @@ func astDump(a *parser.Thrift) (string, error) {
 		w.str(s.ReservedComments)
 	}
 	return w.sb.String(), nil
-}
-
-// ---------------------------------------------------------------- descriptor dump
-
-// uuidCanon replaces the random registry uuid by a fixed token in dumps.
-var uuidCanon = map[string]string{}
-
-func descDump(x interface{}) string {
-	var sb strings.Builder
-	dumpVal(&sb, reflect.ValueOf(x))
-	return sb.String()
-}
-
-func dumpVal(sb *strings.Builder, v reflect.Value) {
-	switch v.Kind() {
-	case reflect.Ptr:
-		if v.IsNil() {
-			sb.WriteString("n")
-			return
-		}
-		dumpVal(sb, v.Elem())
-	case reflect.Struct:
-		n := v.NumField()
-		sb.WriteString("R " + strconv.Itoa(n))
-		for i := 0; i < n; i++ {
-			sb.WriteByte(' ')
-			dumpVal(sb, v.Field(i))
-		}
-	case reflect.String:
-		s := v.String()
-		if c, ok := uuidCanon[s]; ok {
-			s = c
-		}
-		sb.WriteString("X" + vl.Hex(s))
-	case reflect.Bool:
-		if v.Bool() {
-			sb.WriteString("b1")
-		} else {
-			sb.WriteString("b0")
-		}
-	case reflect.Int, reflect.Int8, reflect.Int16, reflect.Int32, reflect.Int64:
-		sb.WriteString("I" + strconv.FormatInt(v.Int(), 10))
-	case reflect.Float64:
-		sb.WriteString(fmt.Sprintf("D%016x", math.Float64bits(v.Float())))
-	case reflect.Slice:
-		if v.IsNil() {
-			sb.WriteString("n")
-			return
-		}
-		sb.WriteString("L " + strconv.Itoa(v.Len()))
-		for i := 0; i < v.Len(); i++ {
-			sb.WriteByte(' ')
-			dumpVal(sb, v.Index(i))
-		}
-	case reflect.Map:
-		if v.IsNil() {
-			sb.WriteString("n")
-			return
-		}
-		type kv struct{ k, v string }
-		var es []kv
-		it := v.MapRange()
-		for it.Next() {
-			var a, b strings.Builder
-			dumpVal(&a, it.Key())
-			dumpVal(&b, it.Value())
-			es = append(es, kv{a.String(), b.String()})
-		}
-		sort.Slice(es, func(i, j int) bool {
-			if es[i].k != es[j].k {
-				return es[i].k < es[j].k
-			}
-			return es[i].v < es[j].v
-		})
-		sb.WriteString("M " + strconv.Itoa(len(es)))
-		for _, e := range es {
-			sb.WriteString(" " + e.k + " " + e.v)
-		}
-	default:
-		panic("descDump: kind " + v.Kind().String())
-	}
 }
 
 // ---------------------------------------------------------------- canonical binary
